@@ -126,6 +126,24 @@ def plan(prop, tier):
     return {"run_timeout": 25, "mem_cap_gb": 4, "runs": 9600, "chunk": 200, "wall_cap": 300, "selftest": 48, "shrink_wall": 400}
 
 
+def prepare(prop, tier, seed):
+    """Systematic part of a C08 batch ("plus the trees returned by parse"): EVERY statement of the test corpus and the function zoo
+    in every dialect is parsed - twice, see the parse op - as records of a few hundred parse ops, so that a producer defect in one
+    dialect's parser does not depend on the random histories drawing one of the handful of statements that show it."""
+    if prop != "C08":
+        return None
+    stmts = list(corpus.extracted())
+    zoo = corpus.zoo_statements(seed % 3)
+    for d in SQL_DIALECTS:
+        stmts += [(d, q) for q in zoo]
+    per = 250
+    cfg = {"mode": "C08", "faults": [], "fault_rate": 0.0, "weights": {}, "use_extracted": True, "rule_ok": False, "hot_dialects": [], "p_grammar": 0.0, "shape": "parse-sweep"}
+    recs = []
+    for i in range(0, len(stmts), per):
+        recs.append({"engine": "treesim", "config": cfg, "ops": [{"k": "parse", "sql": q, "dialect": d} for d, q in stmts[i:i + per]]})
+    return {"parse_sweep_statements": len(stmts), "extra_records": recs}
+
+
 def worker_init(prop, tier):
     sqlglot = common.use_sqlglot()
     from sqlglot.dialects.dialect import Dialect
